@@ -172,7 +172,7 @@ Definition accept_item (s : sock) (x : item) (r : list item) : segout :=
 Definition connect_item (s : sock) (x : item) (r : list item) : segout :=
   match x with
   | IDM => out (set_st (set_rq s r) CLOSED) (ARet (eret ECONNREFUSED))
-  | ICC => out (set_st (set_rq s r) ESTABLISHED) (ARet (Ok VNone))
+  | ICC => out (set_slots (set_st (set_rq s r) ESTABLISHED) 1) (ARet (Ok VNone))    (* send_win := RW of the CC, taken as the default 1 *)
   | _ => out (set_rq s r) (ARet (Err RuntimeErr))
   end.
 
